@@ -26,7 +26,10 @@ func TestSocketCancellation(t *testing.T) {
 		action := rapid.SampledFrom([]string{"unsubscribe", "unsubscribe", "close", "ctx-cancel", "none"}).Draw(t, "action")
 		retKind := rapid.SampledFrom([]string{"canceled", "canceled", "wrapped", "value"}).Draw(t, "returns")
 		lingerUs := rapid.SampledFrom([]int{0, 200, 2000}).Draw(t, "lingerus")
-		cs := map[string]interface{}{"target": target, "action": action, "resolver_returns": retKind, "linger_us": lingerUs, "query": queryFor(target)}
+		// the resolver gives up only when its own context ends (a query or RPC that honours ctx),
+		// with a 7s safety net so that a context that never ends shows up as a hang, not a wedge
+		waitCtx := action != "none" && rapid.Bool().Draw(t, "waitctx")
+		cs := map[string]interface{}{"target": target, "action": action, "resolver_returns": retKind, "linger_us": lingerUs, "resolver_waits_for_ctx": waitCtx, "query": queryFor(target)}
 		base := goroutines()
 		sock := fakesock.New()
 		ctx, cancel := context.WithCancel(context.Background())
@@ -70,7 +73,15 @@ func TestSocketCancellation(t *testing.T) {
 		theGate.arm(target, "act", nil)
 		theGate.mu.Lock()
 		theGate.actErr = ret
-		theGate.act = func() {
+		theGate.act = func(rctx context.Context) {
+			if waitCtx && rctx != nil {
+				defer func() {
+					select {
+					case <-rctx.Done():
+					case <-time.After(7 * time.Second):
+					}
+				}()
+			}
 			switch action {
 			case "unsubscribe":
 				sock.SendEnvelope("s", "unsubscribe", nil)
@@ -117,7 +128,11 @@ func TestSocketCancellation(t *testing.T) {
 		if n, ok := settleGoroutines(base); !ok {
 			fail(fmt.Sprintf("goroutines left behind: %d before, %d 3s after the connection ended", base, n))
 		}
-		rec.Case(fmt.Sprint(cs), true, "socket-cancel:"+action+":"+retKind)
+		lbl := ""
+		if waitCtx {
+			lbl = ":waits-for-ctx"
+		}
+		rec.Case(fmt.Sprint(cs), true, "socket-cancel:"+action+":"+retKind+lbl)
 		rec.Sample("socket-cancel-"+action+"-"+retKind, cs)
 	})
 }
